@@ -36,6 +36,7 @@ func rulesC13(c *Ctx) {
 	ruleAtomicUpdate(c, []string{"client"}, 3) // a queue rewritten from its own contents is read and written in one critical section (no lost result)
 	ruleResetForgets(c)                        // Reset forgets what was queued for the old stream, the request channel's buffer included (shared with C14): a stale request would be sent unaccounted
 	ruleErrorSinks(c)                          // the recorded errors AwaitConverged returns are complete (shared with C14)
+	ruleStatusSnapshot(c)                      // an operation is never absent from a Status() snapshot
 	ruleErrorsRecorded(c)                      // a response the client rejects (unknown id, duplicate terminal result) is recorded as a receive error and ends the receive loop (shared with C14)
 	ruleStateWriters(c, writersClient)
 }
@@ -187,7 +188,7 @@ func clearPendingTable(c *Ctx, withTolerated bool) {
 			if as, ok := ts.Assign.(*ast.AssignStmt); ok {
 				tvar = as.Lhs[0].(*ast.Ident).Name
 				if ta, ok := ast.Unparen(as.Rhs[0]).(*ast.TypeAssertExpr); ok {
-					if _, p := selectorPath(info, ta.X); strings.Join(p, ".") != "Op.Entry" {
+					if _, p := aliasedSelectorPath(info, fi.Decl, ta.X); strings.Join(p, ".") != "Op.Entry" {
 						good, why = false, "details are not taken from the pending operation's entry"
 					}
 				}
@@ -479,7 +480,7 @@ func ruleResponseHandling(c *Ctx) {
 	var loop *ast.RangeStmt
 	inspectNoFuncLit(fi.Decl.Body, func(n ast.Node) bool {
 		if rs, ok := n.(*ast.RangeStmt); ok && loop == nil {
-			if o, p := selectorPath(info, resolveLocal(info, fi.Decl, rs.X)); o == m && strings.Join(p, ".") == "Result" {
+			if o, p := selectorPath(info, resolveLocal(info, fi.Decl, rs.X)); frameArgRoot(info, fi.Decl, o) == m && strings.Join(p, ".") == "Result" {
 				loop = rs
 			}
 		}
@@ -1476,4 +1477,97 @@ func ruleDoneSignal(c *Ctx) {
 	c.check(len(bad) == 0, rule, "client.Client", "receivers of doneCh", "-", fmt.Sprintf("received from only in %v (the drain of Reset)", recvs),
 		"the Done channel is received from inside the library in "+strings.Join(bad, ", ")+": the single token that tells the application the client disconnected is consumed, Done() is never signalled")
 	c.floor(rule, "receives from doneCh (the drain in Reset)", n, 1)
+	// exactly one token: both handlers announce their exit with a non-blocking send and Reset drains one token —
+	// with a larger buffer a token survives Reset and a healthy new session looks disconnected
+	capOK, capSeen := true, 0
+	for _, g := range c.P.AllFuncs("client") {
+		if g.Decl.Body == nil {
+			continue
+		}
+		info := g.Pkg.TypesInfo
+		ast.Inspect(g.Decl.Body, func(m ast.Node) bool {
+			var val ast.Expr
+			switch x := m.(type) {
+			case *ast.KeyValueExpr:
+				if id, ok := x.Key.(*ast.Ident); ok && info.ObjectOf(id) == types.Object(fv) {
+					val = x.Value
+				}
+			case *ast.AssignStmt:
+				for i, l := range x.Lhs {
+					if se, ok := ast.Unparen(l).(*ast.SelectorExpr); ok && info.ObjectOf(se.Sel) == types.Object(fv) && len(x.Rhs) == len(x.Lhs) {
+						val = x.Rhs[i]
+					}
+				}
+			}
+			if val == nil {
+				return true
+			}
+			capSeen++
+			call, ok := ast.Unparen(resolveLocal(info, g.Decl, val)).(*ast.CallExpr)
+			if !ok || len(call.Args) != 2 {
+				capOK = false
+				return true
+			}
+			if v, isC := constInt(info, call.Args[1]); !isC || v != 1 {
+				capOK = false
+			}
+			return true
+		})
+	}
+	c.check(capOK && capSeen >= 1, rule, "client.Client", "the Done channel holds one token", "-", "made with capacity 1", "the Done channel is not made with capacity exactly 1 (two exit announcements, one drained by Reset): a stale token survives Reset, or an announcement blocks")
+}
+
+// STATUS-SNAPSHOT — Status() is a consistent account of the operations: an operation only ever moves from pending to
+// resulted, so reading the pending queue before the result queue can show one twice but never lose it; the other
+// order can show an operation in neither place (handled between the two reads).
+func ruleStatusSnapshot(c *Ctx) {
+	const rule = "STATUS-SNAPSHOT"
+	fi := c.need("client", "Client", "Status")
+	if fi == nil {
+		return
+	}
+	info := fi.Pkg.TypesInfo
+	ev := func(n ast.Node) []Event {
+		var out []Event
+		for _, call := range callsIn(n) {
+			obj := calleeObj(info, call)
+			switch {
+			case isMethod(obj, modPath+"/client", "Client", "Pending"):
+				out = append(out, Event{Kind: "pending", Node: call})
+			case isMethod(obj, modPath+"/client", "Client", "Results"):
+				out = append(out, Event{Kind: "results", Node: call})
+			}
+		}
+		// the queues read in place
+		inspectNoFuncLit(n, func(m ast.Node) bool {
+			if se, ok := m.(*ast.SelectorExpr); ok {
+				switch se.Sel.Name {
+				case "pendq":
+					out = append(out, Event{Kind: "pending", Node: se})
+				case "resultq":
+					out = append(out, Event{Kind: "results", Node: se})
+				}
+			}
+			return true
+		})
+		return out
+	}
+	paths, pe := enumFunc(fi, ev, nil)
+	bad := ""
+	n := 0
+	if pe.overflow || len(pe.unsup) > 0 {
+		bad = "path enumeration incomplete"
+	}
+	for _, p := range paths {
+		ri := idx(p, "results")
+		if ri < 0 {
+			continue
+		}
+		n++
+		if pi := idx(p, "pending"); pi < 0 || pi > ri {
+			bad = "Status reads the results before the pending operations: an operation answered between the two reads is in neither snapshot: " + p.describe(c.P)
+		}
+	}
+	c.Sites += len(paths)
+	c.check(bad == "" && n >= 1, rule, fi.Name, "pending is read before results", c.P.pos(fi.Decl.Pos()), fmt.Sprintf("%d paths read both, pending first", n), bad)
 }
